@@ -404,6 +404,15 @@ func ClientRun(osenv *rsyncos.Env, opts *rsyncopts.Options, conn io.ReadWriter, 
 		}
 	}
 
+	// Entries excluded by the filter rules are protected from --delete. The
+	// sending side applies the rules to the file list; rules this
+	// implementation cannot evaluate (wildcards) are left to the sender,
+	// but then we cannot tell which entries are protected.
+	if exclusionList, err := sender.NewFilterRuleList(opts.FilterRules()); err == nil {
+		rt.Excluded = exclusionList.Matches
+	} else if opts.DeleteMode() {
+		return nil, fmt.Errorf("--delete: %v", err)
+	}
 	for _, rule := range opts.FilterRules() {
 		c.WriteInt32(int32(len(rule)))
 		c.WriteString(rule)
